@@ -502,7 +502,7 @@ def rule_r4(prog, res) -> None:
         bad = None
         for unit, want in table.items():
             env = {"self.unit": unit, "scales": 1.0, "redshift": 0.5}
-            got = _fold_compute_angle(m.node, env, members)
+            got = _fold_compute_angle(prog, m, env, members)
             if got is None or abs(got - want) > 1e-12 * max(1.0, abs(want)):
                 bad = (unit, got, want)
         if bad:
@@ -511,7 +511,12 @@ def rule_r4(prog, res) -> None:
             res.ok("C01.R4", res.site(m), f"conversion factors folded for units {sorted(table)} match the documented table")
 
 
-def _fold_compute_angle(fn: ast.FunctionDef, env: dict, members: dict):
+def _fold_compute_angle(prog, fi, env: dict, members: dict):
+    """value returned by a _compute_angle implementation for one unit, one scale and distance 2: the paths of
+    the method (same-module helpers looked through) are pruned with the unit tests decided for this unit and
+    `isinstance(x, Quantity)` false; the single remaining return expression is folded numerically"""
+    from .. import symx
+
     env = dict(env)
 
     def val(e):
@@ -525,6 +530,8 @@ def _fold_compute_angle(fn: ast.FunctionDef, env: dict, members: dict):
                 return 2.0
             if fnm == "isinstance":
                 return False
+            if fnm in ("asarray", "float", "atleast_1d") and len(e.args) == 1:
+                return val(e.args[0])
             raise Unknown(fnm)
         if isinstance(e, ast.BinOp):
             a, b = val(e.left), val(e.right)
@@ -533,6 +540,11 @@ def _fold_compute_angle(fn: ast.FunctionDef, env: dict, members: dict):
             if isinstance(e.op, ast.Mult):
                 return a * b
             raise Unknown("op")
+        if isinstance(e, ast.UnaryOp) and isinstance(e.op, ast.Not):
+            return not val(e.operand)
+        if isinstance(e, ast.BoolOp):
+            vs = [val(v) for v in e.values]
+            return all(vs) if isinstance(e.op, ast.And) else any(vs)
         if isinstance(e, ast.Compare) and len(e.ops) == 1:
             a, b = val(e.left), val(e.comparators[0])
             if isinstance(e.ops[0], ast.Eq):
@@ -541,8 +553,10 @@ def _fold_compute_angle(fn: ast.FunctionDef, env: dict, members: dict):
                 return a != b
             if isinstance(e.ops[0], ast.In):
                 return a in b
+            if isinstance(e.ops[0], ast.NotIn):
+                return a not in b
             raise Unknown("cmp")
-        if isinstance(e, ast.Tuple):
+        if isinstance(e, (ast.Tuple, ast.List, ast.Set)):
             return tuple(val(x) for x in e.elts)
         if isinstance(e, ast.Constant):
             return e.value
@@ -551,27 +565,19 @@ def _fold_compute_angle(fn: ast.FunctionDef, env: dict, members: dict):
             return env[t]
         raise Unknown(t)
 
-    def block(stmts):
-        for st in stmts:
-            if isinstance(st, ast.Expr):
-                continue
-            if isinstance(st, ast.Return):
-                return ("ret", val(st.value))
-            if isinstance(st, ast.If):
-                r = block(st.body if val(st.test) else st.orelse)
-                if r is not None:
-                    return r
-            elif isinstance(st, ast.Assign) and isinstance(st.targets[0], ast.Name):
-                env[st.targets[0].id] = val(st.value)
-            else:
-                raise Unknown(norm_stmt(st))
-        return None
+    def oracle(t):
+        try:
+            return bool(val(t))
+        except (Unknown, TypeError, ZeroDivisionError):
+            return None
 
     try:
-        r = block(fn.body)
-    except Unknown:
+        paths = symx.explore(prog, fi, oracle=oracle, inline=symx.inline_private_helpers(prog))
+        rets = [p for p in paths if p.outcome == "return" and p.value is not None]
+        vals = {round(float(val(p.value)), 15) for p in rets}
+    except (Unknown, TypeError, ZeroDivisionError, symx.TooManyPaths):
         return None
-    return r[1] if r else None
+    return vals.pop() if len(vals) == 1 else None
 
 
 # ----------------------------------------------------------------------------- R5
